@@ -1,6 +1,7 @@
 import DoviModel.Model.Ops
 import DoviModel.Model.Generate
 import DoviModel.Proofs.Rpu
+import DoviModel.Props.SourceTie
 /-! # C03 — every emitted RPU is well-formed and decodes to what was written (theorems; extended in Proofs/) -/
 namespace Dovi.C03
 open Dovi
@@ -134,5 +135,21 @@ theorem exRpu_wf : RpuWf exRpu ∧ (writeRpu exRpu).isOk = true := by
       decide
   · intro rem hr
     cases hr
+
+/-- **source tie** (regenerated on every run from /repo by tools/gen_source_layouts.py): the field widths,
+`length > k` thresholds, field order, `bytes_size()` and `required_bits()` of every extension-block level and
+the 32 codings of the `vdr_dm_data` payload, as they stand in the Rust sources now, are the tables the model —
+and therefore every theorem about the emitted RPUs — is built on -/
+theorem source_layouts_agree :
+    (∀ level length, Src.blockParse level length = blockParseLayout level length) ∧
+    (∀ level length, Src.blockWrite level length = blockWriteLayout level length) ∧
+    (∀ level length, Src.blockBytes level length = blockBytes level length) ∧
+    (∀ level length, level ≠ 0 → Src.blockRequired level length = blockRequiredBits level length) ∧
+    Src.dmMainParse.map SourceTie.conv = dmMainParseLayout ∧
+    Src.dmMainWrite.map SourceTie.conv = dmMainWriteLayout ∧
+    Src.signedFields = [(2, 6)] :=
+  ⟨SourceTie.parse_layout_from_source, SourceTie.write_layout_from_source, SourceTie.bytes_from_source,
+   SourceTie.required_from_source, SourceTie.dm_parse_from_source, SourceTie.dm_write_from_source,
+   SourceTie.signed_from_source⟩
 
 end Dovi.C03
